@@ -122,6 +122,9 @@ func collectShared(p *Prog) []*sharedType {
 	return out
 }
 
+// lockAliases: locals defined once as (the address of) a mutex field, by object.
+var lockAliases = map[types.Object]ast.Expr{}
+
 // lockOp classifies a call as a lock operation on the receiver's mutex: "Lock","RLock","Unlock","RUnlock" or "".
 func (s *sharedType) lockOp(info *types.Info, recv types.Object, call *ast.CallExpr) string {
 	sel, ok := call.Fun.(*ast.SelectorExpr)
@@ -138,6 +141,12 @@ func (s *sharedType) lockOp(info *types.Info, recv types.Object, call *ast.CallE
 		return ""
 	}
 	x := ast.Unparen(sel.X)
+	// the mutex reached through a local that only names it: lock := &recv.mu; lock.RLock()
+	if id, ok := x.(*ast.Ident); ok {
+		if a, ok := lockAliases[info.Uses[id]]; ok {
+			x = a
+		}
+	}
 	if s.muEmb {
 		if id, ok := x.(*ast.Ident); ok && info.Uses[id] == recv {
 			return sel.Sel.Name
@@ -158,6 +167,44 @@ func (s *sharedType) lockOp(info *types.Info, recv types.Object, call *ast.CallE
 	return ""
 }
 
+var parentsMemo = map[*ast.FuncDecl]map[ast.Node]ast.Node{}
+
+func parentsOf(fd *ast.FuncDecl) map[ast.Node]ast.Node {
+	if m, ok := parentsMemo[fd]; ok {
+		return m
+	}
+	m := parentMap(fd.Body)
+	parentsMemo[fd] = m
+	return m
+}
+
+// handedToSelf: the selector x stands as &x directly in the argument list of a method call on the same receiver.
+func handedToSelf(info *types.Info, parents map[ast.Node]ast.Node, x ast.Expr, recv types.Object) bool {
+	var n ast.Node = x
+	for {
+		p := parents[n]
+		switch q := p.(type) {
+		case *ast.ParenExpr:
+			n = q
+			continue
+		case *ast.UnaryExpr:
+			if q.Op == token.AND {
+				n = q
+				continue
+			}
+			return false
+		case *ast.CallExpr:
+			sel, ok := q.Fun.(*ast.SelectorExpr)
+			if !ok {
+				return false
+			}
+			id, ok := ast.Unparen(sel.X).(*ast.Ident)
+			return ok && info.Uses[id] == recv
+		}
+		return false
+	}
+}
+
 func isMutexFieldName(s *sharedType, name string) bool {
 	if s.muEmb {
 		return name == "Mutex" || name == "RWMutex"
@@ -167,6 +214,26 @@ func isMutexFieldName(s *sharedType, name string) bool {
 
 // analyse builds per-method facts.
 func analyseShared(p *Prog, shared []*sharedType) {
+	lockAliases = map[types.Object]ast.Expr{}
+	p.funcDecls(func(pk *packages.Package, fd *ast.FuncDecl) {
+		if fd.Body == nil {
+			return
+		}
+		for o, d := range singleDefs(pk.TypesInfo, fd.Body) {
+			if d.pos != 0 || d.n != 1 || d.rhs == nil {
+				continue
+			}
+			e := ast.Unparen(d.rhs)
+			if u, ok := e.(*ast.UnaryExpr); ok && u.Op == token.AND {
+				e = ast.Unparen(u.X)
+			}
+			if sel, ok := e.(*ast.SelectorExpr); ok {
+				if nt := namedOf(pk.TypesInfo.TypeOf(sel)); nt != nil && nt.Obj().Pkg() != nil && nt.Obj().Pkg().Path() == "sync" {
+					lockAliases[o] = sel
+				}
+			}
+		}
+	})
 	byNamed := map[*types.Named]*sharedType{}
 	for _, s := range shared {
 		byNamed[s.nt] = s
@@ -482,6 +549,8 @@ func analyseMethod(s *sharedType, m *lockMethod) {
 			}
 			if w, isW := writes[x]; isW && w != "address-taken" {
 				m.accesses = append(m.accesses, fieldAccess{x.Sel.Name, true, x, w})
+			} else if isW && w == "address-taken" && handedToSelf(info, parentsOf(m.fd), x, m.recv) {
+				// &recv.f given to a method of the same receiver: the access happens there, under that method's lock
 			} else if s.mutable[x.Sel.Name] {
 				m.accesses = append(m.accesses, fieldAccess{x.Sel.Name, false, x, "read"})
 			}
